@@ -251,7 +251,7 @@ func ruleC02WaitAll(c *Ctx) {
 					return false
 				}
 				if cst, ok := st.Val.(*ssa.Const); ok && cst.Value != nil && cst.Value.String() == "true" {
-					flagName = fv.Name()
+					flagName = strings.TrimPrefix(freeVarName(cl, fv), "^")
 					return true
 				}
 				return false
@@ -272,7 +272,7 @@ func ruleC02WaitAll(c *Ctx) {
 			}
 		}
 		for _, fl := range flags {
-			c.Guard(rule, fn, clean, "return nil error", nil, atom("flag "+fl+" is false", "!var("+fl+")"))
+			c.Guard(rule, fn, clean, "return nil error", nil, atom("flag "+fl+" is false", "!"+fl))
 		}
 	}
 	c.Floor(rule, 20)
